@@ -9,7 +9,7 @@ func init() {
 	props["C13"] = func(c *Ctx) {
 		n := 400
 		if c.Thorough() {
-			n = 8000
+			n = 2500
 		}
 		c.Sum.Rule = "random histories (logins, callbacks, logouts, attacks, faults) over 4 filter configurations incl. an authorization endpoint with its own query, " +
 			"client ids / scopes / callback URIs with reserved characters, requested URLs with reserved and non-ASCII bytes and a separate query field; every 302 answer is checked; " +
@@ -19,7 +19,7 @@ func init() {
 	props["C15"] = func(c *Ctx) {
 		n := 500
 		if c.Thorough() {
-			n = 10000
+			n = 3000
 		}
 		c.Sum.Rule = "random histories with a high rate of adversarial provider answers (null, wrong member types, huge numbers, non-JSON, non-string nonce, garbage tokens), " +
 			"malformed requests (no http part, empty host/scheme, hostile cookies and queries) and store faults, each check run under recover(); " +
